@@ -97,13 +97,14 @@ def hazards(ctx: Ctx, funcs, clause: str = "S0"):
     """Generic, repository-tuned hazard rules over the functions a property owns (zero reports package-wide on
     the repaired tree): G19 known-rank contradictions, G20 -inf sentinel times a 0/1 mask, G21 unsigned NumPy
     scalars decremented and sign-tested, G22 constructor reads before initialisation, G23 truncating index slices
-    whose bound is computed locally."""
+    whose bound is computed locally, G27 strided views with an absolute storage offset."""
     import ast as _ast
     from rules.initorder import init_reads_before_set
     from rules.narrowint import NarrowInt
     from rules.rank import analyse
     from rules.sentinel import SentinelTaint
     from rules.trunc import TruncAnalysis
+    from rules.strided import absolute_offset_views
     from sa.astutil import u
     col = ctx.col
     n = 0
@@ -147,6 +148,14 @@ def hazards(ctx: Ctx, funcs, clause: str = "S0"):
                    (f"`{u(tb[0]['node'])}` slices an index range of extent {tb[0]['extents']} to `{tb[0]['k']}` entries "
                     f"without a cover (extent is not a max including it, no dominating guard)") if tb else "", rel,
                    tb[0]["node"].lineno if tb else f.line, sample=[u(s_["node"]) for s_ in ta.sites][:4], nontrivial=False)
+        sv = absolute_offset_views(f)
+        if sv:
+            bsv = [x for x in sv if not x["ok"]]
+            col.ob("G27", clause, f"{where}::strided-view-offset-relative-to-receiver", not bsv,
+                   (f"`{u(bsv[0]['node'])[:90]}` passes the absolute storage offset `{bsv[0]['offset']}` without adding "
+                    f"`{bsv[0]['recv']}.storage_offset()`: when `{bsv[0]['recv']}` is itself a slice of a larger tensor "
+                    f"(contiguous() keeps the offset) the view reads other elements of the storage") if bsv else "", rel,
+                   bsv[0]["node"].lineno if bsv else f.line, sample=[(x["recv"], x["offset"], x["why"]) for x in sv], nontrivial=False)
         if f.name == "__init__" and f.cls is not None:
             bads = init_reads_before_set(ctx.res, f)
             col.ob("G22", clause, f"{where}::reads-before-initialisation", not bads,
